@@ -94,7 +94,7 @@ pub enum Api {
     ShutCall,
     ShutRet,
     DropStream,
-    DgSendCall { id: u64 },
+    DgSendCall { id: u64, host_len: usize },
     DgSendRet { id: u64, res: String },
     DgRecv { id: u64, fields_ok: bool },
     DgRecvErr { err: String },
